@@ -86,6 +86,8 @@ pub struct Report {
     pub assumptions: Vec<String>,
     pub required: BTreeMap<String, u64>,
     pub notes: Map<String, Value>,
+    /// keys written through `note_max` (merged by maximum whatever their name)
+    max_keys: Vec<String>,
     pub rule: String,
     pub exhaustive: Option<bool>,
     /// seed of the case currently running (copied into violation records)
@@ -215,6 +217,9 @@ impl Report {
     }
     /// Keep the max of a numeric note (e.g. worst observed error ratio).
     pub fn note_max(&mut self, key: &str, v: f64) {
+        if !self.max_keys.iter().any(|k| k == key) {
+            self.max_keys.push(key.to_string());
+        }
         let cur = self.notes.get(key).and_then(|x| x.as_f64()).unwrap_or(f64::NEG_INFINITY);
         if v > cur || cur.is_nan() {
             self.notes.insert(key.to_string(), json!(v));
@@ -267,11 +272,17 @@ impl Report {
         for (k, v) in o.required {
             self.require(&k, v);
         }
+        for k in &o.max_keys {
+            if !self.max_keys.iter().any(|x| x == k) {
+                self.max_keys.push(k.clone());
+            }
+        }
         for (k, v) in o.notes {
-            // numeric notes: keep max for *_max / worst*, sum otherwise
+            // numeric notes: maximum for keys written by `note_max` (or named *max* / *worst*), sum otherwise
             match (self.notes.get(&k).and_then(|x| x.as_f64()), v.as_f64()) {
                 (Some(a), Some(b)) => {
-                    let r = if k.contains("max") || k.contains("worst") { a.max(b) } else { a + b };
+                    let is_max = k.contains("max") || k.contains("worst") || self.max_keys.iter().any(|x| x == &k);
+                    let r = if is_max { a.max(b) } else { a + b };
                     self.notes.insert(k, json!(r));
                 }
                 _ => {
